@@ -108,6 +108,17 @@ CLAIMS = {
                 'and at quiescence.',
         'note': _NOTE,
     },
+    'C17': {
+        'text': 'The class hierarchy itself is symbolic: an NxN matrix of z3 Booleans constrained '
+                'to a partial order, served through a metaclass __subclasscheck__; the real '
+                'MetaConcurrent matching code runs over every hierarchy with <= N classes, every '
+                'choice of children (incl. one level of nested Concurrent) and handler entries; '
+                'isinstance == issubclass == the documented rule as a z3 formula; replays use '
+                'real classes with real inheritance. The except-clause is checked on a real '
+                'hierarchy (known finding K01).',
+        'note': _NOTE + '; code that inspects __mro__ of the symbolic classes is only judged by '
+                        'the real-class replay (non-reproducing counterexamples = inconclusive)',
+    },
 }
 
 NOT_APPLICABLE = {}
